@@ -279,6 +279,16 @@ func normPayload(action string, payload []byte, errObj json.RawMessage) string {
 		if err != nil {
 			return "unparseable:" + string(payload)
 		}
+		// identifiers the process generated itself because the input lacked them: v7 ids
+		// stamped by the simulated clock (which starts in 2000) are recognisable by their prefix
+		for _, nd := range Walk(v, "") {
+			if nd.Key == "uuid" && nd.V.K == 's' && len(nd.V.S) == 36 && strings.HasPrefix(nd.V.S, "00") && nd.V.S[14] == '7' {
+				nd.V.S = "(generated)"
+				if h := v.Get("head"); h != nil {
+					h.Del("dig") // the digest covers the generated identifier
+				}
+			}
+		}
 		if h := v.Get("head"); h != nil {
 			h.Del("uuid")
 			if action == "correct" || action == "replicate" {
@@ -419,6 +429,11 @@ func execBulk(x *X) {
 		}
 		st.rd = NewSimReader(x, fmt.Sprintf("s%d/in", st.idx), st.input)
 		chunk := int(x.P.Knob(fmt.Sprintf("chunk%d", st.idx), 0))
+		if chunk > 0 && len(st.input)/chunk > 6000 {
+			// keep the number of delivery steps of one run bounded (tiny chunks over hundreds of
+			// kilobytes would cost minutes of wall clock without adding interleavings)
+			chunk = len(st.input)/6000 + 1
+		}
 		if chunk > 0 {
 			st.rd.Chunks = []int{chunk}
 		}
